@@ -97,7 +97,11 @@ OPS['readjsall'] = async (pol, enc, hdr, modi, d, comment, text, bytes_txt) => {
     return baseline;
 };
 
-function dec_cell(t) { return t === 'N' ? null : dec_str(t); }
+function dec_cell(t) {
+    if (t === 'N') return null;
+    if (t.startsWith('L')) return t === 'L!' ? [] : t.slice(1).split('+').map(dec_cell);
+    return dec_str(t);
+}
 function dec_cell_table(t) {
     if (t === '~') return [];
     return t.split(';').map(r => r === '!' ? [] : r.split(',').map(dec_cell));
